@@ -1021,7 +1021,7 @@ func unparseQuery(q b6.Query) (string, bool) {
 		qs := make([]string, len(q))
 		for i := range q {
 			var ok bool
-			if qs[i], ok = unparseQuery(q[i]); !ok {
+			if qs[i], ok = unparseSubquery(q[i]); !ok {
 				return "", false
 			}
 		}
@@ -1030,7 +1030,7 @@ func unparseQuery(q b6.Query) (string, bool) {
 		qs := make([]string, len(q))
 		for i := range q {
 			var ok bool
-			if qs[i], ok = unparseQuery(q[i]); !ok {
+			if qs[i], ok = unparseSubquery(q[i]); !ok {
 				return "", false
 			}
 		}
@@ -1045,6 +1045,20 @@ func unparseQuery(q b6.Query) (string, bool) {
 		return unparseQuery(*q)
 	}
 	return "", false
+}
+
+// unparseSubquery brackets an intersection or union nested inside another
+// one: "&" and "|" have no precedence in the grammar, they only nest to
+// the right.
+func unparseSubquery(q b6.Query) (string, bool) {
+	s, ok := unparseQuery(q)
+	if ok {
+		switch q.(type) {
+		case b6.Intersection, b6.Union, *b6.Intersection, *b6.Union:
+			s = "[" + s + "]"
+		}
+	}
+	return s, ok
 }
 
 func UnparseExpression(e b6.Expression) (string, bool) {
